@@ -27,7 +27,7 @@ func c09pVerify(zone string, keys map[uint16][]*dns.DNSKEY, msg *dns.Msg, work d
 	if a {
 		return true, nil
 	}
-	return false, dnssec.ErrInvalidRRsig
+	return false, dnssec.ErrNoSignatures
 }
 
 func c09pTag(k *dns.DNSKEY) uint16 {
@@ -38,9 +38,9 @@ func c09pTag(k *dns.DNSKEY) uint16 {
 	return t
 }
 
-func c09pKey(tag string) *dns.DNSKEY {
-	k := &dns.DNSKEY{Flags: []uint16{257, 256, 257 | DNSKEYFlagRevoke, 256 | DNSKEYFlagRevoke}[vChoice(tag+".flags", 4)], Protocol: 3,
-		Algorithm: []uint8{8, 13}[vChoice(tag+".alg", 2)], PublicKey: []string{"AwEAAa", "AwEAAb"}[vChoice(tag+".material", 2)]}
+func c09pKey(tag string, nflags, nalgs int) *dns.DNSKEY {
+	k := &dns.DNSKEY{Flags: []uint16{257, 256, 257 | DNSKEYFlagRevoke, 256 | DNSKEYFlagRevoke}[vChoice(tag+".flags", nflags)], Protocol: 3,
+		Algorithm: []uint8{8, 13}[vChoice(tag+".alg", nalgs)], PublicKey: []string{"AwEAAa", "AwEAAb"}[vChoice(tag+".material", 2)]}
 	k.Hdr = dns.RR_Header{Name: ".", Rrtype: dns.TypeDNSKEY, Class: dns.ClassINET, Ttl: 172800}
 	return k
 }
@@ -50,21 +50,21 @@ func c09pKey(tag string) *dns.DNSKEY {
 //
 //verif:entry tier=quick,thorough
 //verif:expect full-authentication-only-by-current-anchors revocation-only-authentication-by-revoked-copies-of-current-anchors untrusted-keys-never-reach-the-verifier unauthenticated-set-changes-nothing
-//verif:bound 1-2 current anchors and 1-2 fetched DNSKEYs, each with flags in {KSK, ZSK, KSK+REVOKE, ZSK+REVOKE}, 2 algorithms, 2 key materials; every key tag collides (same tag, +128 with REVOKE); the signature verifier answers arbitrarily per pass
+//verif:bound 1-2 current anchors (KSK or ZSK, 2 key materials) and 1-2 fetched DNSKEYs (flags in {KSK, ZSK, KSK+REVOKE, ZSK+REVOKE}, 2 key materials, the first also in a second algorithm); every key tag collides (same tag, +128 with REVOKE); the signature verifier answers arbitrarily per pass
 //verif:outside the signature verifier itself (C14, C01); which anchors AutoTA passes in as current (VerifC09_RefreshStep)
 func VerifC09_TwoPassAuthentication() {
 	c09p.maps, c09p.answers = nil, nil
 	var root []dns.RR
 	var rootKeys []*dns.DNSKEY
 	for i := 0; i < 1+vChoice("anchors", 2); i++ {
-		k := c09pKey("anchor")
+		k := c09pKey("anchor", 2, 1)
 		rootKeys = append(rootKeys, k)
 		root = append(root, k)
 	}
 	var rrs []dns.RR
 	var fetched []*dns.DNSKEY
 	for i := 0; i < 1+vChoice("fetched", 2); i++ {
-		k := c09pKey("fetched")
+		k := c09pKey("fetched", 4, 2-i)
 		fetched = append(fetched, k)
 		rrs = append(rrs, k)
 	}
